@@ -1,5 +1,5 @@
 // driver: vyukov_hash_map (C10, C11)
-//   config: vy<cap><kv><h>/<recl>   kv in {ii, is, im, si, sm} (key/value storage: int, string, managed_ptr)   h in {h (default hash), c (all keys collide)}
+//   config: vy<cap><kv><h>/<recl>   kv in {ii, is, im, si, sm} (key/value storage: int, string, managed_ptr)   h in {h (default hash), c (all keys share a bucket), e (all keys have the same hash value)}
 //   ops: emp<k> goe<k> gol<k> era<k> ext<k> get<k> (try_get_value) fnd<k> (find, read, release)
 //        trav  trave<p> (erase(iterator&) at position p)  fer<k> (erase(find(k)))  itmv<k> (iterator move-assignment while holding a bucket)
 //   values: key k maps to 10*k
@@ -21,6 +21,8 @@ struct ValM { template <class R> using type = xenium::managed_ptr<VNode<R>, R>; 
   template <class A> static long of_acc(A& a) { return a->v; } template <class V> static long of_it(const V& v) { return v->v; } static constexpr bool managed = true; };
 
 template <class K> struct ColHash { std::size_t operator()(const typename K::type& k) const noexcept { return (std::size_t)K::id(k) * 4096; } };
+// every key has the same hash value: distinct non-trivial keys then share the stored (hashed) key and only differ in compare_nontrivial_key
+template <class K> struct EqHash { std::size_t operator()(const typename K::type&) const noexcept { return 7 * 4096; } };
 template <class K> struct StdHash { std::size_t operator()(const typename K::type& k) const noexcept { return (std::size_t)K::id(k); } };
 
 static size_t g_cap = 1;
@@ -82,6 +84,7 @@ template <class R, class K, class V> xv::Scenario by_hash(const drv::Program& p,
   using namespace xenium;
   using KT = typename K::type; using VT = typename V::template type<R>;
   if (h == 'c') { using M = vyukov_hash_map<KT, VT, policy::reclaimer<R>, policy::hash<ColHash<K>>>; return make_scn<M, K, V, R>(p); }
+  if (h == 'e') { using M = vyukov_hash_map<KT, VT, policy::reclaimer<R>, policy::hash<EqHash<K>>>; return make_scn<M, K, V, R>(p); }
   using M = vyukov_hash_map<KT, VT, policy::reclaimer<R>, policy::hash<StdHash<K>>>; return make_scn<M, K, V, R>(p);
 }
 
